@@ -1,6 +1,6 @@
 \* the tree as it is: XChanged (cur) is never reset by InitCode_166, N_XChanged (nxt) and the modes are
 CONSTANTS
- Haz = {"cp"}
+ Haz = {"cp", "sp"}
  Fams = {"a", "b"}
  Leak = {"cur"}
  MaxFiles = 2
